@@ -4,7 +4,8 @@
     only through Commit. The dry-run and `schema apply` clauses of the
     property are decided by the oracle stage only (see DESIGN.md, C13). *)
 From Coq Require Import List NArith Bool Arith.
-From Atlas Require Import Base.Bytes Exec.ExecModel Exec.PendingModel Exec.RunModel Exec.TxModel Exec.TxProofs.
+From Atlas Require Import Base.Bytes Base.Stutter Exec.ExecModel Exec.ExecProofs Exec.StepProofs Exec.PendingModel Exec.PendingProofs
+  Exec.RunModel Exec.TxModel Exec.TxProofs Exec.RunProofs Exec.CrashProofs.
 Import ListNotations.
 
 Section C13.
@@ -59,11 +60,43 @@ Theorem C13_fail_none :
       = (AFail o, mkDb (d_journal c ++ map snd (journal es)) t', None, tr).
 Proof. exact (apply_loop_none_single hash hash_eqb HS). Qed.
 
+(** Fix and re-run. Setting: directory [dir] (files strictly sorted by version,
+    no checkpoint file, no txmode directive; any file may carry a failing
+    statement [tf_bad]); [c0] a file boundary ([Bd], e.g. the empty database);
+    the command fails on a statement ([AFail OStmtErr]) in any mode, with any
+    count. [fixed dir] = the same files with no failing statement. Then
+    `migrate apply` on the fixed directory from the state the failure left, and
+    the same command from [c0] (the run without failure), both succeed and end
+    in a completed state -- every statement's effect exactly once, in plan
+    order, every revision Applied = Total = statement count -- with equal
+    journals. (Equality of the revision rows beyond version/Applied/Total --
+    cleared partial hashes and error flag -- is compared by the tie and the
+    oracle, not proved.) *)
+Theorem C13_fix_rerun :
+  (forall a b, hash_eqb a b = true <-> a = b) ->
+  forall (dir : list tfile),
+  sorted_files (map tf_file dir) -> (forall f, In f (map tf_file dir) -> f_ckpt f = false) ->
+  no_directive dir ->
+  forall global (c0 : db hash) k0 n o c1 tr,
+  Bd hash HS dir c0 k0 ->
+  apply_run hash hash_eqb HS global n dir c0 = (o, c1, tr) -> o = AFail OStmtErr ->
+  exists o2 c2 tr2 o3 c3 tr3,
+    apply_run hash hash_eqb HS global 0 (fixed dir) c1 = (o2, c2, tr2) /\
+    (o2 = ADone \/ o2 = APend PNoPending) /\
+    apply_run hash hash_eqb HS global 0 (fixed dir) c0 = (o3, c3, tr3) /\
+    (o3 = ADone \/ o3 = APend PNoPending) /\
+    completed hash dir c2 /\ completed hash dir c3 /\ d_journal c2 = d_journal c3.
+Proof.
+  intros Hspec dir Hs Hn Hd global c0 k0 n o c1 tr.
+  exact (fix_rerun_lemma hash hash_eqb HS Hspec dir Hs Hn Hd global c0 k0 n o c1 tr).
+Qed.
+
 End C13.
 
 Print Assumptions C13_fail_all.
 Print Assumptions C13_fail_file.
 Print Assumptions C13_fail_none.
+Print Assumptions C13_fix_rerun.
 
 (** Non-vacuity: two files, the second one failing at its second statement. *)
 Definition s (n : N) : bytes := [40%N; n; 41%N].
@@ -86,3 +119,17 @@ Example C13_none_nonvacuous :
   let '(o, c', _) := apply_run bytes bytes_eqb (fun b => b) TxNone 0 ex_dir ex_db0 in
   o = AFail OStmtErr /\ d_journal c' = [s 1; s 2; s 3].
 Proof. vm_compute. split; reflexivity. Qed.
+
+Example C13_fix_rerun_nonvacuous :
+  let run m := apply_run bytes bytes_eqb (fun b => b) m 0 ex_dir ex_db0 in
+  forallb (fun m =>
+    let '(o, c1, _) := run m in
+    let '(o2, c2, _) := apply_run bytes bytes_eqb (fun b => b) m 0 (fixed ex_dir) c1 in
+    match o, o2 with
+    | AFail OStmtErr, ADone =>
+        bytes_eqb (concat (d_journal c2)) (concat [s 1; s 2; s 3; s 4]) && (length (d_journal c2) =? 4) &&
+        forallb (fun r => (r_applied r =? r_total r) && negb (r_err r)) (d_tbl c2)
+    | _, _ => false
+    end) [TxNone; TxFile; TxAll] = true /\
+  Bd bytes (fun b => b) ex_dir ex_db0 0.
+Proof. split; [vm_compute; reflexivity|apply Bd_empty]. Qed.
